@@ -18,4 +18,4 @@ m['caught_by']={'check':'./tools/check %s quick'%P,'result':R,'first_violation':
 json.dump(m,open(p,'w'),indent=1)
 PY
   echo "$n $R :: $VIO"
-done | tee $V/out/seedrun.log
+done | tee $V/out/${SEEDLOG:-seedrun.log}
